@@ -42,7 +42,9 @@ def layout_case(draw, names=None):
     fam = ops.CATALOGUE[op["op"]][2]
     if fam == "watershed" and T == "reverse":
         T = "roll"
-    return dict(fg=fg, dg=dg, dims=dims, specs=specs, op=op, T=T, perm=draw(st.permutations(list(range(len(dims) + 2)))),
+    ok = [n for n in (names or list(ops.CATALOGUE)) if len(fg["f"]) >= ops.CATALOGUE[n][1]]
+    more = draw(st.lists(st.sampled_from(sorted(ok)), unique=True, min_size=min(2, len(ok)), max_size=min(2, len(ok))))
+    return dict(fg=fg, dg=dg, dims=dims, specs=specs, op=op, T=T, more=more, perm=draw(st.permutations(list(range(len(dims) + 2)))),
                 roll=draw(st.integers(1, dg["n"] - 1)), winds=[dict(wspd=draw(st.floats(2, 30)), wdir=draw(st.floats(0, 360)), dpt=draw(st.sampled_from([5.0, 40.0, 500.0]))) for _ in range(min(npos, 3))])
 
 
@@ -90,6 +92,25 @@ def transform(da, T, case):
 
 
 def check_layout(case, ctx):
+    """Every storage transformation for the drawn operation and two more (sampling one (T, O) pair per dataset
+    left pairs such as (reverse, rotate by whole bins) unvisited in a quick run)."""
+    names = [case["op"]["op"]] + [n for n in case.get("more", []) if n != case["op"]["op"]]
+    nt, sample = False, None
+    for name in names:
+        for T in TRANSFORMS:
+            if ops.CATALOGUE[name][2] == "watershed" and "reverse" in T:
+                continue
+            c = dict(case, T=T, op=dict(case["op"], op=name))
+            ctx.nontrivial = False
+            _check_one(c, ctx)
+            nt = nt or ctx.nontrivial
+            sample = sample or ctx.sample
+            ctx.evals += 1
+    ctx.evals -= 1
+    ctx.nontrivial, ctx.sample = nt, sample
+
+
+def _check_one(case, ctx):
     T = case["T"]
     dtype = "float32" if "width" in T else "float64"
     x = gen.build_dataarray(case["fg"], case["dg"], case["specs"], case["dims"], dtype=dtype)
@@ -191,9 +212,9 @@ def check_np(case, ctx):
 def facets():
     S, TR, SP, WS = ops.STAT_NAMES, ops.TRANSFORM_NAMES, ops.SPLIT_NAMES, ops.WATERSHED_NAMES
     return [
-        Facet("stats", layout_case(S), check_layout, quick=1600, thorough=60000, qshards=8),
-        Facet("transforms", layout_case(TR), check_layout, quick=800, thorough=30000, qshards=4),
-        Facet("splits", layout_case(SP), check_layout, quick=400, thorough=16000, qshards=2),
-        Facet("watershed", layout_case(WS), check_layout, quick=500, thorough=20000, qshards=3),
+        Facet("stats", layout_case(S), check_layout, quick=160, thorough=6000, qshards=8),
+        Facet("transforms", layout_case(TR), check_layout, quick=100, thorough=3000, qshards=5),
+        Facet("splits", layout_case(SP), check_layout, quick=50, thorough=1600, qshards=2),
+        Facet("watershed", layout_case(WS), check_layout, quick=60, thorough=2000, qshards=3),
         Facet("np_level", np_case(), check_np, quick=400, thorough=20000, qshards=1),
     ]
